@@ -19,6 +19,7 @@ RULE = ("Hypothesis: histories = op lists (1-30 steps) over the full public alph
         "no-wrap transpose). Non-trivial: >= 4 executed steps, a mutator executed from a state in which the view it works "
         "on was stale, and at least one read of each view. Distinct by case digest.")
 RULE = RULE + " Rounds e-g: note-offs with release velocities, INTERNAL marker messages through add_absolute_message / overwrite_absolute_messages, rests written as two WAITs."
+RULE = RULE + " Round h: zero-tick waits."
 ASSUMPTIONS = ["mutators are never interleaved with an open messages_*() generator (documented as illegal)",
                "edits through messages_abs() never change `time`; invalidate_* is only called when the other view is fresh",
                "an operation that raises identically on the object and on its clean replica ends the history as inconclusive"]
